@@ -191,3 +191,22 @@ Inductive subseq {X} : list X -> list X -> Prop :=
 | subseq_skip : forall x a b, subseq a b -> subseq a (x :: b).
 
 Definition key_texts {V} (d : list (pname * V)) : list text := map (fun e => pn_text (fst e)) d.
+
+(* ---- the text of the warnings (field.report(...)) ----------------------------------------------------------------- *)
+Definition render_report (r : report) : text :=
+  match rp_kind r with
+  | RUnexpectedArg => T "Unexpected argument in " ++ rp_name r ++ T " field"
+  | RNameMissing => T "Parameter name missing"
+  | RNotExist =>
+    T "Documented parameter """ ++ rp_name r ++ T """ does not exist" ++
+    (match rp_variant r with
+     | 0%N => []
+     | 1%N => T ", variable keywords should be documented with the " ++ T """Keyword Arguments"" section"
+     | _ => T ", variable keywords should be documented with the " ++ T """keyword"" field"
+     end)
+  | RAlreadyDoc => T "Parameter """ ++ rp_name r ++ T """ was already documented"
+  | RAsKeyword => T "Parameter """ ++ rp_name r ++ T """ is documented as keyword"
+  | RExcMissing => T "Exception type missing"
+  | RUnknownField => T "Unknown field '" ++ rp_name r ++ T "'"
+  | RVarName => T "Field in variable docstring should not include a name"
+  end%list.
